@@ -544,6 +544,16 @@ func runC10(t *testing.T, c simrt.Chooser, o Opts) *Out {
 	// 3. reported iff the primary request was answered with a JSON object in time
 	served := sc.Connect == "accept" && sc.ConnFault == "" && sc.Server == sc.Scheme && primReq != nil && primReq.DoneT > 0 && prim.completes()
 	inTime := served && primReq.DoneT-t0 < timeout-time.Microsecond
+	// The probe must actually ask: when the endpoint is ready to serve the primary request completely
+	// well inside the timeout (by its script: connect time + header delay + piece delays) and the
+	// request never arrives or is not answered in time, the probe wasted its budget elsewhere.
+	// (elastic only: the docker probe shares one budget between its requests)
+	if !inTime && sc.Kind == "elastic" && sc.Connect == "accept" && sc.ConnFault == "" && sc.Server == sc.Scheme && prim.completes() {
+		scripted := connTime + prim.hdrDelay + time.Duration(max(1, prim.Pieces)-1)*prim.pieceDelay
+		if scripted < timeout/2 && scripted < timeout-5*time.Millisecond {
+			served, inTime = true, true
+		}
+	}
 	okStatus := sc.Kind == "elastic" || (prim.Status >= 200 && prim.Status < 300)
 	// a redirect answer that itself carries a JSON object: whether that counts as "answered with a
 	// JSON object" (elastic) / "succeeded" (docker: the client library treats 3xx as success) is left open
@@ -552,7 +562,7 @@ func runC10(t *testing.T, c simrt.Chooser, o Opts) *Out {
 		okStatus = true
 	}
 	must := inTime && prim.Verdict == "object" && okStatus && !prim.Endless && !redirect
-	may := must || (served && primReq.DoneT-t0 < timeout+time.Microsecond && (prim.Verdict == "object" || prim.Verdict == "object+garbage") && okStatus)
+	may := must || (served && primReq != nil && primReq.DoneT-t0 < timeout+time.Microsecond && (prim.Verdict == "object" || prim.Verdict == "object+garbage") && okStatus)
 	// a response that is cut after a complete object (stall / reset / endless after the object) may be reported as well
 	if !may && sc.Connect == "accept" && sc.ConnFault == "" && sc.Server == sc.Scheme && okStatus && prim.Status != 204 && prim.Fault != "close-after-request" &&
 		(prim.Verdict == "object" || prim.Verdict == "object+garbage") && (prim.Stall == "" || prim.Stall == "mid-body") {
